@@ -38,7 +38,10 @@ DIRECTIVES = [
     (["#if 1"], None),
     (["#line 1"], None),
     (["# 1 \"main.F90\" 2"], None),
-    (["#define TWICE(a) a; a"], None),                    # a ';' in a directive is not a statement separator
+    (["#define TWICE(a) a; a"], None),
+    (["#define MAX(A, B) ((A) > (B) ? (A) : (B))"], None),      # macro parameters in upper case, mixed, with an ellipsis
+    (["#define IDX(i, J, _k) a(i + J + _k)"], None),
+    (["#define CHECK(Cond, ...) call chk(Cond, __VA_ARGS__)"], None),                    # a ';' in a directive is not a statement separator
     (["#if defined(A); B"], None),
     (["#define LONG(a) \\", "    a + 1"], "#define LONG(a)     a + 1"),
     (["  #  define SPACED 3"], "#define SPACED 3"),
